@@ -69,7 +69,7 @@ pub fn verdict_for(spec: &SeqSpec, case: &SeqCase, out: &Outcome) -> Verdict {
     }
 }
 
-fn case_strategy(spec: &SeqSpec) -> BoxedStrategy<SeqCase> {
+pub fn case_strategy(spec: &SeqSpec) -> BoxedStrategy<SeqCase> {
     let w = (spec.weights)();
     let max_ops = spec.max_ops;
     ((spec.cfg)(), prop::collection::vec(op_strategy(&w), 0..=max_ops))
